@@ -13,7 +13,8 @@ CONSTANTS ExpSet,        \* exponents whose decode loop is stepped state by stat
           MantSet,       \* mantissas for those
           FloatSet,      \* float32 inputs (as [s, e, f]) whose encode loop is stepped
           TableExps,     \* exponents with a complete 2^18 mantissa table (rows of 256)
-          SparseExps     \* exponents with the structured mantissa rows only
+          SparseExps,    \* exponents with the structured mantissa rows only
+          EncTables      \* subset of {"int", "top18"}: complete encoder tables to check and emit
 
 \* ---- the loops as recursive operators (for table rows) --------------------
 \* decoder: exp8 = wire exponent + 150; shift left until bit 23 is set
@@ -87,7 +88,21 @@ TableStep == /\ phase = "pick"
 EncEmit == /\ phase = "pick" /\ phase' = "encemit" /\ UNCHANGED << e0, m0, exp8, mant, x, M, sh, ex, row >>
            /\ Emit([script |-> "rembenc", brs |-> SetToSeqF(FloatSet)])
 
-RNext == PickDec \/ DecStep \/ PickEnc \/ EncStep \/ TableStep \/ EncEmit
+\* complete encoder tables: every integer below 2^18 (as a float), and every 18-bit
+\* leading part at one exponent (x = top * 2^6 * 2^0 with exponent field 150); the three
+\* lemmas below extend them to all non-negative finite floats (DESIGN.md 3.5)
+IntToFloat(n) == IF n = 0 THEN Zero ELSE LET k == Msb(n) IN [s |-> 0, e |-> 127 + k, f |-> (n - 2 ^ k) * 2 ^ (23 - k)]
+EncRowFloat(kind, w) == IF kind = "int" THEN IntToFloat(w) ELSE [s |-> 0, e |-> 150, f |-> w * 64]
+EncTableStep ==
+  \/ /\ phase = "pick" /\ \E kind \in EncTables, g \in 0..15 : row' = [exp |-> IF kind = "int" THEN 0 ELSE 1, c |-> g]
+     /\ phase' = "encgroup" /\ UNCHANGED << e0, m0, exp8, mant, x, M, sh, ex >>
+  \/ /\ phase = "encgroup"
+     /\ \E c \in 0..(IF row.exp = 0 THEN 1023 ELSE 511) :
+          /\ c % 16 = row.c /\ row' = [exp |-> row.exp, c |-> c]
+          /\ Emit([script |-> "rembencrow", kind |-> IF row.exp = 0 THEN "int" ELSE "top18", c |-> c])
+     /\ phase' = "encrow" /\ UNCHANGED << e0, m0, exp8, mant, x, M, sh, ex >>
+
+RNext == PickDec \/ DecStep \/ PickEnc \/ EncStep \/ TableStep \/ EncEmit \/ EncTableStep
 RSpec == RInit /\ [][RNext]_rvars
 
 ---------------------------------------------------------------------------
@@ -119,6 +134,26 @@ ExactWhenRepresentable == phase = "encdone" =>
 \* monotone: a larger input never encodes to a smaller value (checked against every other input)
 Monotone == phase = "encdone" =>
   \A y \in FloatSet : FloatLeq(x, y) => PairLeq(RembPair(x), RembPair(y))
+\* the encoder loop as an operator, for table rows
+RECURSIVE EncLoop(_, _, _)
+EncLoop(mm, s, k) == IF LeqScaled(1, 18, mm, s) THEN EncLoop(mm, s - 1, k + 1) ELSE [ex |-> k, m |-> FloorScaled(mm, s)]
+EncByLoop(v) == EncLoop(Clamp(v).M, Clamp(v).sh, 0)
+EncRowOK == phase = "encrow" =>
+  \A i \in 0..255 : LET w == 256 * row.c + i
+                        v == EncRowFloat(IF row.exp = 0 THEN "int" ELSE "top18", w) IN
+     /\ EncByLoop(v) = RembPair(v)
+     /\ (row.exp = 0 => RembPair(v) = [ex |-> 0, m |-> w])
+     /\ (row.exp = 1 => RembPair(v) = [ex |-> 6, m |-> 131072 + w])
+\* lemmas that carry the two tables to every non-negative finite float (checked on FloatSet):
+\* below 2^18 only the integer part matters; from 2^18 on only the leading 18 bits matter;
+\* doubling the input adds one to the exponent until saturation
+FloorFloat(v) == IF v.e < 127 THEN Zero ELSE IF v.e >= 150 THEN v ELSE [v EXCEPT !.f = v.f - (v.f % (2 ^ (150 - v.e)))]
+EncLemmas == phase = "encdone" =>
+  /\ (x.e <= 144 => RembPair(x) = RembPair(FloorFloat(x)))
+  /\ (x.e >= 145 => RembPair(x) = RembPair([x EXCEPT !.f = x.f - (x.f % 64)]))
+  /\ (x.e \in 145..206 => RembPair([x EXCEPT !.e = x.e + 1]) = [ex |-> RembPair(x).ex + 1, m |-> RembPair(x).m])
+  /\ (x.e >= 208 => RembPair(x) = [ex |-> 63, m |-> 262143])
+
 \* table rows: loop = closed form, and decoding scales with the exponent
 RowOK == phase = "table" =>
   \A i \in 0..255 : LET m == 256 * row.c + i  r == RembFloat({}, row.exp, m)  r0 == RembFloat({}, 0, m) IN
